@@ -29,12 +29,16 @@ var genericArgs = regexp.MustCompile(`\[[^\]]*\]`)
 var locationTable = []struct{ fn, loc string }{
 	{"applySubObjectDefaultValues", "shared_default_map"}, // cell.s
 	{"extractObjectDefaultValues", "defaults_cache"},      // defaults.<obj>
+	{"jsonUnmarshal", "defaults_cache"},                   // the decoded values the cache holds
 	{"GetDefaults", "defaults_cache"},
 	{"getSortedMultipliersCache", "unit_cache"}, // unit.sorted
 	{"updateReCache", "unit_cache"},             // unit.re, unit.names
 	{"(*UnitsDefinition).", "unit_cache"},
 	{"setupStepData", "step_table"}, // steps.table
 	{"ApplyNamespace", "link"},      // link.<ref>
+	// lowest priority: convertData alone (the crashing goroutine of a fatal concurrent map access: it ranges
+	// over its raw data, which is shared only when it is the aliased default map)
+	{"convertData", "shared_default_map"},
 }
 
 func locationOf(fns []string) string {
